@@ -38,9 +38,9 @@ ASSUMPTIONS = [
 NSHARDS = {"quick": 16, "thorough": 16}
 BUDGET_S = {"quick": 18, "thorough": 240}
 FLOORS = {
-    "quick": {"evaluations": 6000, "distinct": 4000,
-              "counters": {"hook_events": 15000, "subsets": 64, "events_compared": 15000,
-                           "unintercepted_applications": 15000, "async_renders": 800}},
+    "quick": {"evaluations": 3000, "distinct": 2000,
+              "counters": {"hook_events": 6000, "subsets": 64, "events_compared": 6000,
+                           "unintercepted_applications": 6000, "async_renders": 400}},
     "thorough": {"evaluations": 150000, "distinct": 100000,
                  "counters": {"hook_events": 400000, "subsets": 512, "events_compared": 400000,
                               "unintercepted_applications": 400000, "async_renders": 20000}},
